@@ -175,7 +175,7 @@ def probe_inc(res):
 
 def plan(tier):
     t = 1 if tier == 'thorough' else 0
-    digits = [128, 129, 200, 256, 512, 1024, 2048] if t else [128, 200, 512]
+    digits = [128, 129, 200, 256, 512, 1024, 2048] if t else [128, 200, 512, 1024]
     single_word = [64, 65, 100, 127] if t else [65]
     units = []
     results = {}
@@ -199,6 +199,11 @@ def plan(tier):
             for s in (1, 0):
                 if d == 128 and s == 0:
                     continue  # wide_integer<128, unsigned> is stored in unsigned __int128 under gnu++20
+                if d == 1024 and not t:
+                    # quick: only the signed binary program (129 8-bit limbs: the Karatsuba path with an odd limb count)
+                    if s == 1:
+                        unit(10000 + 2 * d + s, 'wide-bin-%d%s' % (d, 'su'[1 - s]), '-O1', 2)
+                    continue
                 sh = (8 if d >= 1024 else 4 if d >= 256 else 3) if t else 2
                 unit(10000 + 2 * d + s, 'wide-bin-%d%s' % (d, 'su'[1 - s]), wide_opt, sh)
                 unit(20000 + 2 * d + s, 'wide-un-%d%s' % (d, 'su'[1 - s]), '-O0', 2 if t else 1)  # cheap to run, expensive to optimise
